@@ -1,5 +1,6 @@
 import Sm9.Proofs.RepIndep
 import Sm9.Proofs.FinalExp
+import Sm9.Proofs.MillerNafInstance
 /-!
 # C03 — All pairing entry points agree and ignore the projective representative
 
@@ -8,8 +9,13 @@ depends on its operands only through the group elements they denote (`toAff`): a
 rescaling, normalised or not, and any representation of the identity (x, y, 0) gives the
 same value; identity inputs give one in all three; `G2Prepared::from` never panics.  A
 prepared value is an immutable list of coefficients (the model function is pure), so reuse in
-any order cannot change results.  **Not yet a theorem**: that `pairing` and `fast_pairing`
-(the two Miller loops) agree on non-identity inputs — decided by the three-way
+any order cannot change results; `fast_pairing` and the two-call prepared API are the same
+computation (`prepared_is_fast`, by `rfl`).  Each of the two Miller loops is proved equal to the
+textbook Miller function of its own addition chain (C02), so `pairing = fast_pairing` on a
+non-identity input is *equivalent* to the equality of the two reduced textbook functions there
+(`agreement_iff_chain_independence`); that equality — independence of the Miller function of the
+addition chain — is proved at the standard's test vector (`chain_independence_at_known_answer`) and
+for the generators (kernel), **not in general** (divisor theory): decided by the three-way
 correspondence against the textbook pairing, including interleaved reuse through clones.
 -/
 namespace Sm9.C03
@@ -40,5 +46,23 @@ theorem final_exp_variants_agree (x : Fq12) : x.final_exp = x.final_exponentiati
 
 /-- non-vacuity: the generator and its rescaling by λ = −1 denote the same point -/
 example : G1.Valid (G.one : G1) ∧ G2.Valid (G.one : G2) := ⟨G1.one_valid, G2.one_valid⟩
+
+/-- the two-call prepared API is the same computation as `fast_pairing` -/
+theorem prepared_is_fast (P : G1) (Q : G2) :
+    (do let pr ← Api.prepare Q; Api.preparedPairing pr P) = Api.fast_pairing P Q := Miller.api_prepared_eq_fast P Q
+open Miller in
+theorem agreement_iff_chain_independence (P : G1) (Q : G2) (hPz : P.z ≠ 0) (hPv : G1.Valid P)
+    (hQz : Q.z ≠ 0) (hQv : G2.Valid Q) (k : Nat) (hk : G2.toAff Q = k • G2.toAff (G.one : G2)) :
+    Api.pairing P Q = Api.fast_pairing P Q ↔
+      specMillerNaf (P.x / P.z ^ 2) (P.y / P.z ^ 3) (Q.x / Q.z ^ 2) (Q.y / Q.z ^ 3) ^ ((q ^ 12 - 1) / r)
+        = specMiller (P.x / P.z ^ 2) (P.y / P.z ^ 3) (Q.x / Q.z ^ 2) (Q.y / Q.z ^ 3) ^ ((q ^ 12 - 1) / r) :=
+  api_pairing_eq_fast_pairing_iff P Q hPz hPv hQz hQv k hk
+open Miller C02 in
+/-- at the standard's test vector the two textbook functions have the same reduced value, the published one -/
+theorem chain_independence_at_known_answer :
+    specMillerNaf kaP.x kaP.y kaQ.x kaQ.y ^ ((q ^ 12 - 1) / r)
+      = specMiller kaP.x kaP.y kaQ.x kaQ.y ^ ((q ^ 12 - 1) / r) ∧
+    specMillerNaf kaP.x kaP.y kaQ.x kaQ.y ^ ((q ^ 12 - 1) / r) = kaExpected :=
+  specMillerNaf_eq_specMiller_known_answer
 
 end Sm9.C03
